@@ -269,7 +269,12 @@ func (n *cnode) produce(parent *types.Block, txs []types.Transaction, coherent b
 		h = system.VerifC15SwapInFresh(n.sysStateAt(parent.GetHeader().GetBlocksRootHash()))
 		defer system.VerifC15SwapBack(h)
 	}
-	blk, bs, err := dpos.VerifC15Generate(n.cons, parent, n.nextSlot(), n.lpb)
+	lpb := n.lpb
+	if coherent {
+		// another producer: its previous block is not known here; "confirms 1" (its last block was the parent)
+		lpb = parent.BlockNo()
+	}
+	blk, bs, err := dpos.VerifC15Generate(n.cons, parent, n.nextSlot(), lpb)
 	if err != nil {
 		return nil, nil, err
 	}
